@@ -16,6 +16,12 @@ import (
 
 func init() {
 	register(&Property{ID: "C08", Run: runC08, Mutants: []Mutant{
+		{Name: "line-comment test reads the second byte before the first", File: "internal/printer/printer.go", Old: "\treturn text[0] == '#' || len(text) > 1 && text[1] == '/'", New: "\treturn text[1] == '/' || text[0] == '#'", Expect: "comment-marker-index"},
+		{Name: "comment text stripped of its marker before the '#' case", File: "internal/ast/ast.go", Old: "\t\tswitch {\n\t\tcase c[0] == '#':", New: "\t\tswitch {\n\t\tcase c[1] == '!':\n\t\t\tc = c[2:]\n\t\tcase c[0] == '#':", Expect: "comment-marker-index"},
+		{Name: "bad-digit report indexes the literal with the absolute offset", File: "internal/scanner/scanner.go", Old: "lit[invalid-offs]", New: "lit[invalid]", Expect: "offset-frame"},
+		{Name: "separator error reported at the literal-relative index", File: "internal/scanner/scanner.go", Old: "s.error(offs+i, \"'_' must separate successive digits\")", New: "s.error(i, \"'_' must separate successive digits\")", Expect: "offset-frame"},
+		{Name: "embed pre-pass reads the type of the looked-up object before testing the scope", File: "internal/types/embed.go", Old: "\t\t\t\tif scope != WaUniverse || obj.Type() != waUniverseString {", New: "\t\t\t\tif typ := obj.Type(); scope != WaUniverse || typ != waUniverseString {", Expect: "lookup-result-nil-checked"},
+		{Name: "interface lookup asserts the type name before the nil test", File: "internal/types/interfaces.go", Old: "\tif obj == nil {\n\t\treturn nil\n\t}\n\ttname, _ := obj.(*TypeName)", New: "\ttname := obj.(*TypeName)", Expect: "lookup-result-nil-checked"},
 		{Name: "slice-expression colon loop bounded by the wrong array", File: "internal/parser/parser.go", Old: "for p.tok == token.COLON && ncolons < len(colons) {", New: "for p.tok == token.COLON && ncolons < len(index) {", Expect: "fixed-array-bound :: internal/parser.parser.parseIndexOrSlice"},
 		{Name: "array elements resolved through the indirect resolver", File: "internal/types/typexpr.go", Old: "\t\t\ttyp.len = check.arrayLength(e.Len)\n\t\t\ttyp.elem = check.typ(e.Elt)", New: "\t\t\ttyp.len = check.arrayLength(e.Len)\n\t\t\ttyp.elem = check.indirectType(e.Elt)", Expect: "value-cycle-detection :: typInternal: array element type"},
 		{Name: "format.File panics again on unknown language", File: "internal/format/format.go", Old: "\tdefault:\n\t\treturn nil, false, fmt.Errorf(", New: "\tdefault:\n\t\tpanic(\"unreachable\")\n\t\treturn nil, false, fmt.Errorf(", Expect: "dispatch-totality"},
